@@ -1266,6 +1266,11 @@ class Engine:
         if isinstance(v, Con) and isinstance(v.value, float) and v.value not in (float("inf"), float("-inf")) \
                 and v.value == v.value and v.value == int(v.value):
             return Num(Lin.const(int(v.value)))
+        if isinstance(v, Con) and isinstance(v.value, float) and v.value == v.value and abs(v.value) < 1e9:
+            from fractions import Fraction
+            fq = Fraction(v.value)
+            if fq.denominator <= 64:          # 0.5, 1.5, 0.25 ...: exactly representable, arithmetic on them is exact
+                return Num(Lin.const(fq))
         if isinstance(v, Unk):
             return Num(Lin.var(v.term))
         return None
@@ -1308,7 +1313,9 @@ class Engine:
                     return [(s, self.wrap(_pyop(op, a.value, b.value)))]
                 except Exception:
                     pass
-            return [(s, Unk(self.fresh("float")))]
+            exact = all(self.num(x, s) is not None for x in (a, b) if isinstance(x, Con) and isinstance(x.value, float))
+            if not exact or not isinstance(op, (ast.Add, ast.Sub, ast.Mult, ast.Mod, ast.FloorDiv)):
+                return [(s, Unk(self.fresh("float")))]
         if isinstance(op, ast.Add) and isinstance(a, Unk) and isinstance(b, Unk):
             # type unknown: could be numeric addition or string concatenation; keep the provenance
             t = ("add", vkey(a), vkey(b))
@@ -1339,6 +1346,8 @@ class Engine:
         if isinstance(op, (ast.FloorDiv, ast.Mod)):
             if la.is_const() and lb.is_const() and lb.k != 0 and la.k.denominator == 1 and lb.k.denominator == 1:
                 return [(s, Num(Lin.const(_pyop(op, int(la.k), int(lb.k)))))]
+            if la.is_const() and lb.is_const() and lb.k != 0:
+                return [(s, Num(Lin.const(la.k % lb.k if isinstance(op, ast.Mod) else la.k // lb.k)))]     # exact rationals
             if lb.is_const() and lb.k > 0 and lb.k.denominator == 1:
                 c = int(lb.k)
                 q = ("div", la.key(), c)
@@ -1537,6 +1546,8 @@ class Engine:
                 pass
         if isinstance(b, Tup) and isinstance(a, Con) and all(isinstance(x, Con) for x in b.items):
             return any(x.value == a.value for x in b.items)
+        if isinstance(b, Tup) and isinstance(a, Num) and b.items and all(isinstance(x, Num) for x in b.items) and len(b.items) <= 8:
+            return f_or([self._eq(a, x, None) for x in b.items])        # membership in a short tuple of numbers
         if isinstance(b, Con) and isinstance(b.value, str) and isinstance(a, Con) and isinstance(a.value, str):
             return a.value in b.value
         return ("atom", ("in", vkey(a), vkey(b) if not (isinstance(b, Ref) and b.kind == "folded") else ("folded", b.name)))
@@ -2105,9 +2116,10 @@ class Engine:
             if res is not None:
                 return res if isinstance(res, list) else [(s, res)]
             if m.qual in self.inline_methods and fr.depth < self.max_depth and m.qual not in fr.stack_quals():
-                bound = self.bind_args(m, args, kwargs, skip_self=True)
+                bound = self.bind_args(m, args, kwargs, skip_self=not m.is_static)
                 if bound is not None:
-                    bound[m.posparams[0]] = base
+                    if not m.is_static:
+                        bound[m.posparams[0]] = base
                     sub = self.run_function(m, bound, s, fr.depth + 1, fr)
                     out = []
                     for rs, rv in sub.returns:
@@ -2286,6 +2298,9 @@ class Engine:
         if short in ("int", "abs") and len(args) == 1:
             n = args[0] if isinstance(args[0], Num) else None
             if short == "int" and n is not None:
+                if n.lin.is_const() and n.lin.k.denominator != 1:
+                    import math
+                    return [(s, Num(Lin.const(math.trunc(n.lin.k))))]
                 return [(s, n)]
             t = self.fresh(short)
             self.origin[t] = (short, args[0])
